@@ -167,7 +167,7 @@ def run_inner(args):
                 verd['energy_conserved'] = bool(abs(float(np.real(np.vdot(v, Hd @ v))) / nv ** 2 - E0) <= 1e-7 * max(1.0, abs(E0)))
             if normalize:
                 verd['unit_norm'] = bool(abs(nv - 1) <= 1e-8)
-            if full and fullness['complete'] and (fullness['one_sided'] or method == '2site'):
+            if full and fullness['complete'] and fullness['one_sided']:
                 # phase-insensitive comparison is not enough: the state itself must coincide (subtract_E changes only a global phase/scale of the generator)
                 if subtract_E:
                     ov = np.vdot(ref, v)
